@@ -35,7 +35,7 @@ func (s *BitSet[T]) Remove(items ...T) bool {
 	resultS := *s
 	for _, item := range items {
 		asFlag := BitSet[T](item)
-		removed = removed || resultS&asFlag == asFlag
+		removed = removed || resultS&asFlag != 0
 		resultS &= ^asFlag
 	}
 
